@@ -75,9 +75,10 @@ CLAIMED = {
              "the module. Theorems: within the BMP the regexes are exactly the complements of the productions "
              "(structural complement lemma + vm_compute); every non-empty BMP name is coerced to NameStart NameChar* "
              "(exhaustive 65 536-point sweep for escapes, lifted by all_below_spec); legal names unchanged, colon "
-             "always coerced; round trip and injectivity for names without an escape pattern (PARTIAL: for the "
-             "single-pass decoder; the code's set-order replacement is modelled and tied by correspondence but its "
-             "order-independence is not proved; proved instead: on an encoded name findall returns exactly the encoder's escapes, in order, and unescapeChar inverts each); coerceCharacters removes every form feed and changes nothing else; the comment loop terminates for every input (two passes suffice) "
+             "always coerced; round trip for names without an escape pattern for the code's own decoder -- one str.replace per dis"
+             "tinct findall match in the iteration order of a set -- for EVERY order (blocks literal/escaped/decod"
+             "ed; one replace decodes exactly the escaped blocks of its character), also for the single-pass decod"
+             "er, and injectivity; on an encoded name findall returns exactly the encoder's escapes; coerceCharacters removes every form feed and changes nothing else; the comment loop terminates for every input (two passes suffice) "
              "and the result has no '--'/trailing '-'; coerced public identifiers contain only PubidChars for ALL "
              "code points. Every BMP code point in both positions is additionally checked against expat on every run.",
         design_ref="DESIGN.md 3 C20",
